@@ -28,7 +28,9 @@ Inductive ires := IPierce | ICannot | INothing | ISendFail.
 (* race mode, both attempts succeed at the same instant: both tasks are in `done` of one asyncio.wait | the direct
    one is seen first (the indirect attempt is still waiting and gets cancelled) | the indirect one is seen first
    (the direct attempt is cancelled inside the drain of its PeerInit write, connected but not initialised) *)
-Inductive tie_sched := BothDone | DirectFirst | IndirectFirst.
+Inductive tie_sched := BothDone | DirectFirst | IndirectFirst | IndirectFirstConnecting.
+  (* IndirectFirstConnecting: the indirect one is seen first while the direct attempt, due at the same instant, is still inside
+     open_connection (its completion callback has not run yet): it is cancelled there *)
 
 Record script := mkS {
   md : mode; ad : addr; ad_delay : Z; dr : dres; d_delay : Z; ir : ires; i_delay : Z; cancel : option Z;
@@ -155,6 +157,8 @@ Definition race_nc (s : script) : final :=
            | IndirectFirst =>
                mkF (ORet WIndirect) (Some ti) false false loser_orphan
                    (RACE_CANCELS_LOSER && negb ATTEMPT_CLOSES_ON_CANCEL) false
+           | IndirectFirstConnecting =>
+               F (ORet WIndirect) (Some ti) (if RACE_CANCELS_LOSER then dir_cancel_residue true else false) false loser_orphan
            end
   | Succ td, Fail ti =>
       if ti <? td then F (ORet WDirect) (Some td) false (ind_fail_residue s) false
